@@ -571,7 +571,21 @@ type outputBuffer struct {
 func (w *outputBuffer) emitEligibleFrames(output chan queuedFrame, connectionWindowSize *int) {
 	for e := w.queue.Front(); e != nil; {
 		f := e.Value.(queuedFrame)
-		if f.flowControlSize() > *connectionWindowSize || f.flowControlSize() > w.windowSize {
+		// Only frames that are flow-controlled wait for window: a window made negative by a lowered
+		// initial window size holds back DATA, not the frames behind it.
+		if n := f.flowControlSize(); n > 0 && (n > *connectionWindowSize || n > w.windowSize) {
+			avail := *connectionWindowSize
+			if w.windowSize < avail {
+				avail = w.windowSize
+			}
+			// A receiver may wait for data before it grants more credit, so the part of a DATA frame
+			// that fits the open window is sent now.
+			if d, ok := f.(*queuedDataFrame); ok && avail > 0 {
+				output <- &queuedDataFrame{d.streamID, false, d.data[:avail], d.maxFrameSize}
+				d.data = d.data[avail:]
+				*connectionWindowSize -= avail
+				w.windowSize -= avail
+			}
 			break
 		}
 		output <- f
